@@ -45,6 +45,9 @@ CHECKS = {
  "C13": ("exploration", "online assertions at the backend boundary (Setup return: no other set-up client of the id without Terminate; CONNACK pre-send: every older client of the id terminated), PINGREQ liveness probe (exactly one survivor), session-present replay in recorded Setup order, Terminate counts, displaced will count, VerifSnapshot bookkeeping, no-loss/no-second-new-delivery for persistent parties, goroutine-profile stuck detector, race detector",
          "1200 (quick) / 25000 (thorough) rounds of 2-8 simultaneous CONNECTs with one id (clean/unclean mixed) against an absent / idle / mid-handshake / concurrently dying old connection with concurrent QoS 1 traffic and backend-boundary perturbation; 2-6 blocked-in-send rounds (known finding)",
          "schedules are those the Go scheduler produces under perturbation (evidence counts distinct Setup orders); the blocked-in-send deadlock is a recorded known finding", "2-C13"),
+ "C14": ("exploration", "child-process liveness with a crash journal, two witness clients exchanging numbered QoS 0/1/2 traffic and PINGs after every group of hostile streams, Closed() and Setup/Terminate pairing for every hostile connection, VerifSnapshot bookkeeping, goroutine census at final quiescence",
+         "24 (quick) / 500 (thorough) brokers x 36 hostile streams of 9 kinds run 6 at a time with backend-boundary perturbation; MemoryBackend.Close at every backend hook-call index 1..40 of two concurrent sessions; every backend hook failing at its 1st-4th call before/after; takeover hitting KillTimeout",
+         "hostile peers keep reading and never use a witness's client id; process death is turned into a violation by the driver from the journal", "2-C14"),
 }
 NOT_APPLICABLE = {}
 def main():
